@@ -8,6 +8,17 @@ ROOT = os.path.dirname(os.path.dirname(os.path.abspath(__file__)))
 props = [json.loads(l) for l in open(os.path.join(ROOT, "properties.jsonl"))]
 
 CHECKS = {
+    "C03": dict(
+        text="Repo.tla (TLC, exhaustive for 2 versions / 3 commands) shows the ordering design keeps every visible snapshot "
+             "readable at every crash point of backup/forget/prune. The code is bound to it by trace validation: each "
+             "storage operation of the command under test is an event, RepoTrace.tla evaluates Readable/Dangling after every "
+             "event (= every crash point of the observed linearisation) and compares with the real read path run on that "
+             "very store prefix; every single-operation failure position is re-executed on a copy of the pre-state.",
+        note="Assumes atomic failure of a single write/remove and crash = stop between two storage operations on an atomic "
+             "in-memory store (no torn writes). Commands under test: backup, forget, prune (all options except the excluded "
+             "instant+early-delete-index), repair index/snapshots, config, key add, merge, rewrite. Copy is covered under C12.",
+        technique="TLC model of the storage protocol with crash steps + TLC trace validation of real operation logs at every prefix + fault injection sweep",
+        design="4/C03"),
     "C09": dict(
         text="TLC evaluates the retention function Forget!Keep (TLA+, with an integer civil/ISO calendar) on the complete "
              "logged input of every real KeepOptions::apply / grouped call and compares with the real output (trace "
